@@ -53,6 +53,344 @@ def getters():
     return out
 
 
+VERSIONS = [1, 2, 3, 4, 5, 6, 7]
+STORAGE_RS = "fuel-vm/src/interpreter/storage.rs"
+
+
+def version_fields():
+    """{k: [(field, 'Word'|'DependentCost')]} for every `pub struct GasCostsValuesV{k}`"""
+    src = strip_comments(read(GAS_RS))
+    enum = need(re.search(r"pub enum GasCostsValues \{(.*?)\n\}", src, re.S), "enum GasCostsValues")
+    vs = [int(a) for a, b in re.findall(r"V(\d+)\(GasCostsValuesV(\d+)\),", enum.group(1)) if a == b]
+    if vs != VERSIONS or len(re.findall(r"\(", enum.group(1))) != len(VERSIONS):
+        raise TranslateError("enum GasCostsValues: variants are not exactly V1..V7 (found %r)" % vs)
+    out = {}
+    for k in VERSIONS:
+        m = need(re.search(r"pub struct GasCostsValuesV%d \{(.*?)\n\}" % k, src, re.S), "struct GasCostsValuesV%d" % k)
+        fields = re.findall(r"pub (\w+):\s*(Word|DependentCost),", m.group(1))
+        rest = re.sub(r"#\[[^\]]*\]", "", m.group(1))
+        rest = re.sub(r"pub \w+:\s*(Word|DependentCost),", "", rest)
+        if rest.strip() or len(fields) < 100:
+            raise TranslateError("GasCostsValuesV%d: unrecognised member text %r" % (k, rest.strip()[:80]))
+        out[k] = fields
+    return out
+
+
+def getters_all(vfields):
+    """[(getter, returns DependentCost?, returns Result?, [arm for V1..V7])], arm = ('field', f) | ('heavy0', f) | ('undef',)
+    from `impl GasCostsValues { pub fn g(&self) -> T { match self { GasCostsValues::Vk(vk) => … } } }`"""
+    src = strip_comments(read(GAS_RS))
+    out = []
+    arm_re = re.compile(r"GasCostsValues::V(\d)\((\w+)\)=>(?:Ok\((\w+)\.(\w+)\)|(\w+)\.(\w+)|(Err\(GasCostNotDefined\))"
+                        r"|DependentCost::HeavyOperation\{base:(\w+)\.(\w+),gas_per_unit:0,\}),")
+    blocks = re.findall(r"\nimpl GasCostsValues \{\n(.*?)\n\}\n", src, re.S)
+    block = [b for b in blocks if "match self" in b]
+    if len(block) != 1:
+        raise TranslateError("impl GasCostsValues: getter block not found")
+    for name, ret, body in re.findall(r"pub fn (\w+)\(&self\) -> ([^{]+?)\s*\{\s*match self \{(.*?)\n        \}\n    \}", block[0], re.S):
+        ret = re.sub(r"\s+", "", ret)
+        if ret not in ("Word", "DependentCost", "Result<Word,GasCostNotDefined>", "Result<DependentCost,GasCostNotDefined>"):
+            raise TranslateError(f"getter {name}: return type {ret!r} not understood")
+        is_dep, is_res = "DependentCost" in ret, ret.startswith("Result<")
+        b = re.sub(r"\s+", "", body)
+        arms, pos = {}, 0
+        for m in arm_re.finditer(b):
+            if m.start() != pos:
+                raise TranslateError(f"getter {name}: unrecognised match arm text {b[pos:m.start()][:80]!r}")
+            pos = m.end()
+            k, var = int(m.group(1)), m.group(2)
+            types = dict(vfields[k])
+            if m.group(3):
+                v, f, kind, ok = m.group(3), m.group(4), "field", True
+            elif m.group(5):
+                v, f, kind, ok = m.group(5), m.group(6), "field", False
+            elif m.group(7):
+                v, f, kind, ok = var, None, "undef", True
+            else:
+                v, f, kind, ok = m.group(8), m.group(9), "heavy0", False
+            if kind != "undef" and v != var:
+                raise TranslateError(f"getter {name}: V{k} arm reads {v}, bound {var}")
+            if var == "_" and kind != "undef":
+                raise TranslateError(f"getter {name}: V{k} arm ignores its value")
+            if ok != is_res:
+                raise TranslateError(f"getter {name}: V{k} arm Ok/Err wrapping does not match the return type")
+            if kind == "field" and types.get(f) != ("DependentCost" if is_dep else "Word"):
+                raise TranslateError(f"getter {name}: V{k} field {f} has type {types.get(f)}")
+            if kind == "heavy0" and (not is_dep or types.get(f) != "Word"):
+                raise TranslateError(f"getter {name}: V{k} heavy-operation wrapper over non-Word field {f}")
+            if k in arms:
+                raise TranslateError(f"getter {name}: duplicate arm V{k}")
+            arms[k] = (kind, f) if f else (kind,)
+        if pos != len(b) or sorted(arms) != VERSIONS:
+            raise TranslateError(f"getter {name}: arms {sorted(arms)} / trailing text {b[pos:][:60]!r}")
+        out.append((name, is_dep, is_res, [arms[k] for k in VERSIONS]))
+    if len(out) < 100:
+        raise TranslateError("impl GasCostsValues: too few getters found")
+    return out
+
+
+def _fn_parts(src, name, what):
+    """(parameter names, whitespace-free body) of `fn name` in comment-stripped source"""
+    m = need(re.search(r"fn %s\b(?:<[^>]*>)?\s*\(" % name, src), what)
+    depth, i = 1, m.end()
+    while depth:
+        depth += {"(": 1, ")": -1}.get(src[i], 0)
+        i += 1
+    params = [re.sub(r"\s+", "", x).split(":")[0] for x in src[m.end():i - 1].split(",") if x.strip()]
+    k = src.index("{", i)
+    if re.search(r"\bfn\b", src[i:k]):
+        raise TranslateError(f"{what}: body not found")
+    depth, j = 0, k
+    while True:
+        depth += {"{": 1, "}": -1}.get(src[j], 0)
+        j += 1
+        if depth == 0:
+            break
+    return params, re.sub(r"\s+", "", src[k:j])
+
+
+def _template(text, groups):
+    """regex matching `text` exactly, with each name in `groups` (in order of appearance) turned into a capture group"""
+    pat = re.escape(text)
+    for g in groups:
+        if pat.count(re.escape(g)) != 1:
+            raise TranslateError("internal: template placeholder %s" % g)
+        pat = pat.replace(re.escape(g), r"(\w+)")
+    return pat
+
+
+# storage.rs micro-operations, whitespace-free; «…» = captured schedule getter
+T_READ = ("{letcache_key=(contract_id,key);ifletSome(v)=self.storage_slot_cache.get(&cache_key){letgas_charge_units=v.as_ref().map(|data|data.len()asu64).unwrap_or(0);"
+          "letr=f(self.memory.as_mut(),v.as_deref());self.dependent_gas_charge(self.gas_costs().«HOT»().map_err(PanicReason::from)?,gas_charge_units,)?;returnOk(r);}"
+          "letvalue=StorageRead::<ContractsState>::read_alloc(&self.storage,&ContractsStateKey::new(&contract_id,&key),).map_err(RuntimeError::Storage)?;"
+          "letgas_charge_units=value.as_ref().map(|data|data.len()asu64).unwrap_or(0);letr=f(self.memory.as_mut(),value.as_deref());"
+          "self.dependent_gas_charge(self.gas_costs().«COLD»().map_err(PanicReason::from)?,gas_charge_units,)?;self.storage_slot_cache.insert(cache_key,value);Ok(r)}")
+T_LEN = ("{letcache_key=(contract_id,key);ifletSome(v)=self.storage_slot_cache.get(&cache_key){returnOk(v.as_ref().map(|d|d.len()).unwrap_or(0));}"
+         "letvalue=StorageRead::<ContractsState>::read_alloc(&self.storage,&ContractsStateKey::new(&contract_id,&key),).map_err(RuntimeError::Storage)?;"
+         "letlen=value.as_ref().map(|d|d.len()).unwrap_or(0);self.storage_slot_cache.insert(cache_key,value);Ok(len)}")
+T_WRITE = ("{letold_len=self.storage_slot_len_no_gas(contract_id,key)?;letmax_size=self.interpreter_params.max_storage_slot_length;"
+           "if(value.len()asu64)>max_size{returnErr(RuntimeError::Recoverable(PanicReason::StorageOutOfBounds));}letcache_key=(contract_id,key);"
+           "self.storage.contract_state_insert(&contract_id,&key,&value).map_err(RuntimeError::Storage)?;letgas_charge_units=value.len()asu64;"
+           "self.storage_slot_cache.insert(cache_key,Some(value));self.dependent_gas_charge(self.gas_costs().«WRITE»().map_err(PanicReason::from)?,gas_charge_units,)?;"
+           "self.gas_charge(self.gas_costs().«NEWBYTES»().saturating_mul(gas_charge_units.saturating_sub(old_lenasu64)),)?;Ok(())}")
+T_CLEAR = ("{ifrange>1{letstart=primitive_types::U256::from_big_endian(&*key);#[allow(clippy::arithmetic_side_effects)]start.checked_add(primitive_types::U256::from(range-1))"
+           ".ok_or(PanicReason::TooManySlots)?;}self.dependent_gas_charge(self.gas_costs().«CLEAR»().map_err(PanicReason::from)?,rangeasu64,)?;"
+           "self.storage.contract_state_remove_range(&contract_id,&key,range).map_err(RuntimeError::Storage)?;forkeyinkey_range(key,range){letkey=key.ok_or(PanicReason::TooManySlots)?;"
+           "letcache_key=(contract_id,key);self.storage_slot_cache.insert(cache_key,None);}Ok(())}")
+# helpers between the opcodes and the micro-operations: pinned text -> (parameter list, key parameter, steps)
+T_HELPERS = {
+    "storage_write_slot_from_memory": "{letvalue=f(self.memory.as_ref())?.to_vec();self.storage_write_slot(contract_id,key,value)}",
+    "storage_read_to_memory": ("{letoffset=convert::to_usize(offset).ok_or(PanicReason::MemoryOverflow)?;letlen=convert::to_usize(len).ok_or(PanicReason::MemoryOverflow)?;"
+                               "letowner=self.ownership_registers();self.registers[RegId::ERR]=self.storage_read_slot::<_,Result<u64,RuntimeError<S::DataError>>>(contract_id,key,"
+                               "|memory,value|matchvalue{Some(value)=>{letsrc=value.get(offset..offset.saturating_add(len)).ok_or(RuntimeError::Recoverable(PanicReason::StorageOutOfBounds),)?;"
+                               "letdst=memory.write(owner,dst_ptr,len)?;dst.copy_from_slice(src);Ok(0)}None=>Ok(1),},)??;Ok(())}"),
+    "storage_write_from_memory": ("{letlen=convert::to_usize(len).ok_or(PanicReason::MemoryOverflow)?;self.storage_write_slot_from_memory(contract_id,key,|memory|{Ok(memory.read(src_ptr,len)?)})}"),
+    "storage_update_from_memory": ("{letmutvalue=self.storage_read_slot(contract_id,key,|_,v|v.unwrap_or_default().to_vec())?;letoffset=ifoffset==u64::MAX{value.len()}else{convert::to_usize(offset)"
+                                   ".ok_or(PanicReason::MemoryOverflow)?};ifoffset>value.len(){returnErr(RuntimeError::Recoverable(PanicReason::StorageOutOfBounds));}"
+                                   "letwrite_len=convert::to_usize(write_len).ok_or(PanicReason::MemoryOverflow)?;letlen_after=offset.saturating_add(write_len);"
+                                   "letmax_size=self.interpreter_params.max_storage_slot_length;if(len_afterasu64)>max_size{returnErr(RuntimeError::Recoverable(PanicReason::StorageOutOfBounds));}"
+                                   "iflen_after>value.len(){value.resize(len_after,0);}value[offset..len_after].copy_from_slice(self.memory.as_mut().read(src_ptr,write_len)?);"
+                                   "letcontract_id=self.internal_contract()?;self.storage_write_slot(contract_id,key,value)}"),
+    "dynamic_storage_read": "{letcontract_id=self.internal_contract()?;letkey=Bytes32::from(self.memory().read_bytes(key_ptr)?);self.storage_read_to_memory(contract_id,key,buffer_ptr,offset,len)?;Ok(())}",
+    "dynamic_storage_write": "{letcontract_id=self.internal_contract()?;letkey=Bytes32::from(self.memory().read_bytes(key_ptr)?);self.storage_write_from_memory(contract_id,key,value_ptr,len)?;Ok(())}",
+    "dynamic_storage_update": "{letcontract_id=self.internal_contract()?;letkey=Bytes32::from(self.memory().read_bytes(key_ptr)?);self.storage_update_from_memory(contract_id,key,value_ptr,offset,len)?;Ok(())}",
+    "storage_preload": ("{letcontract_id=self.internal_contract()?;matchself.storage_read_slot(contract_id,key,|_,v|v.map(|data|data.len()))?{Some(len)=>{self.registers[RegId::ERR]=0;"
+                        "self.write_user_register(r_dst_len,lenasu64)?;Ok(())}None=>{self.registers[RegId::ERR]=1;self.write_user_register(r_dst_len,0)?;Ok(())}}}"),
+}
+# what the pinned helper texts above mean (hand-read): parameters, and the micro-operations in order
+HELPER_MEANING = {
+    "dynamic_storage_read": (["buffer_ptr", "key_ptr", "offset", "len"], "key_ptr", [("read",)]),
+    "dynamic_storage_write": (["key_ptr", "value_ptr", "len"], "key_ptr", [("write", ("arg", "len"))]),
+    "dynamic_storage_update": (["key_ptr", "value_ptr", "offset", "len"], "key_ptr", [("read",), ("write", ("update", "offset", "len"))]),
+    "storage_preload": (["r_dst_len", "key"], None, [("read",)]),
+}
+HELPER_PARAMS = {
+    "storage_read_slot": ["&mutself", "contract_id", "key", "f"], "storage_slot_len_no_gas": ["&mutself", "contract_id", "key"],
+    "storage_write_slot": ["&mutself", "contract_id", "key", "value"], "storage_clear_slot_range": ["&mutself", "contract_id", "key", "range"],
+    "storage_write_slot_from_memory": ["&mutself", "contract_id", "key", "f"], "storage_read_to_memory": ["&mutself", "contract_id", "key", "dst_ptr", "offset", "len"],
+    "storage_write_from_memory": ["&mutself", "contract_id", "key", "src_ptr", "len"], "storage_update_from_memory": ["&mutself", "contract_id", "key", "src_ptr", "offset", "write_len"],
+}
+
+
+def storage_micro(gets):
+    """getters charged by the storage micro-operations of storage.rs; every function on the path is pinned"""
+    src = strip_comments(read(STORAGE_RS))
+    res = {}
+    for fn, tmpl, names in (("storage_read_slot", T_READ, ["«HOT»", "«COLD»"]), ("storage_slot_len_no_gas", T_LEN, []),
+                            ("storage_write_slot", T_WRITE, ["«WRITE»", "«NEWBYTES»"]), ("storage_clear_slot_range", T_CLEAR, ["«CLEAR»"])):
+        params, body = _fn_parts(src, fn, f"storage.rs fn {fn}")
+        if params != HELPER_PARAMS[fn]:
+            raise TranslateError(f"storage.rs fn {fn}: parameters changed: {params}")
+        m = re.fullmatch(_template(tmpl, names), body)
+        if not m:
+            raise TranslateError(f"storage.rs fn {fn}: body changed")
+        for n, g in zip(names, m.groups()):
+            res[n] = g
+    for n, want_dep in (("«HOT»", True), ("«COLD»", True), ("«WRITE»", True), ("«CLEAR»", True), ("«NEWBYTES»", False)):
+        g = [x for x in gets if x[0] == res[n]]
+        if not g or g[0][1] != want_dep or g[0][2] != want_dep:
+            raise TranslateError(f"storage.rs: getter {res[n]} has an unexpected type")
+    for fn, text in T_HELPERS.items():
+        params, body = _fn_parts(src, fn, f"storage.rs fn {fn}")
+        exp = HELPER_PARAMS.get(fn) or (["&mutself"] + HELPER_MEANING[fn][0])
+        if params != exp or body != text:
+            raise TranslateError(f"storage.rs fn {fn}: text changed")
+    if len(re.findall(r"gas_charge\s*\(", src)) != 5:
+        raise TranslateError("storage.rs: number of gas-charging statements changed")
+    return res
+
+
+def _call_args(text, start):
+    """argument strings of the call whose '(' is at text[start]"""
+    depth, i, args, cur = 0, start, [], ""
+    while True:
+        c = text[i]
+        if c in "([{":
+            depth += 1
+            if depth > 1:
+                cur += c
+        elif c in ")]}":
+            depth -= 1
+            if depth == 0:
+                break
+            cur += c
+        elif c == "," and depth == 1:
+            args.append(cur)
+            cur = ""
+        else:
+            cur += c
+        i += 1
+    if cur:
+        args.append(cur)
+    return args, i + 1
+
+
+def storage_shapes(storage_ops):
+    """per storage opcode: key operand, range operand (loop over `key_range`), micro-operations inside / after the loop"""
+    src = strip_comments(read(IMPL_RS))
+    parts = re.split(r"impl<M, S, Tx, Ecal, V> Execute<M, S, Tx, Ecal, V> for fuel_asm::op::(\w+)", src)
+    out = []
+    for i in range(1, len(parts), 2):
+        op, raw = parts[i], parts[i + 1]
+        body = re.sub(r"\s+", "", raw)
+        touches = bool(re.search(r"storage_(read|write|clear|preload)|dynamic_storage|key_range", body))
+        if op not in storage_ops:
+            if touches:
+                raise TranslateError(f"{op}: touches contract state storage but is not a known storage opcode")
+            continue
+        m = need(re.search(r"let\(([\w,]+)\)=self\.unpack\(\);", body), f"{op}: operand tuple")
+        tup = [x for x in m.group(1).split(",") if x]
+
+        def operand(expr):
+            r = (re.fullmatch(r"interpreter\.registers\[(\w+)\]", expr) or re.fullmatch(r"(\w+)\.to_u8\(\)\.into\(\)", expr)
+                 or re.fullmatch(r"(\w+)\.to_u16\(\)\.into\(\)", expr))
+            if not r or r.group(1) not in tup:
+                raise TranslateError(f"{op}: operand expression {expr!r} not understood")
+            return tup.index(r.group(1))
+
+        key_arg, range_arg, range_var = None, None, None
+        k = re.search(r"read_bytes\(interpreter\.registers\[(\w+)\]\)", body)
+        if k:
+            key_arg = operand("interpreter.registers[%s]" % k.group(1))
+        r = re.search(r"let(\w+)=crate::convert::to_usize\(interpreter\.registers\[(\w+)\]\)\.ok_or\(PanicReason::TooManySlots\)\?;", body)
+        if r:
+            range_var, range_arg = r.group(1), operand("interpreter.registers[%s]" % r.group(2))
+        loop = None
+        lm = re.search(r"for(?:\(i,key\)|key)inkey_range\(key,(\w+)\)(?:\.enumerate\(\))?\{", body)
+        if lm:
+            if lm.group(1) != range_var:
+                raise TranslateError(f"{op}: loop range {lm.group(1)} is not the converted range operand")
+            depth, j = 1, lm.end()
+            while depth:
+                depth += {"{": 1, "}": -1}.get(body[j], 0)
+                j += 1
+            loop = (lm.start(), j)
+            if not body[lm.end():].startswith("letkey=key.ok_or(PanicReason::TooManySlots)?;"):
+                raise TranslateError(f"{op}: loop does not start with the key overflow check")
+        inside, after = [], []
+        for c in re.finditer(r"interpreter\.(storage_read_slot|storage_write_slot_from_memory|storage_write_slot|storage_clear_slot_range|dynamic_storage_read"
+                             r"|dynamic_storage_write|dynamic_storage_update|storage_preload|storage_\w+|dynamic_\w+)\(", body):
+            name = c.group(1)
+            args, _ = _call_args(body, c.end() - 1)
+            in_loop = loop is not None and loop[0] < c.start() < loop[1]
+            if loop is not None and c.start() < loop[0]:
+                raise TranslateError(f"{op}: storage access before the slot loop")
+            steps = []
+            if name == "storage_read_slot":
+                if args[:2] != ["contract_id", "key"]:
+                    raise TranslateError(f"{op}: storage_read_slot arguments {args[:2]}")
+                steps = [("read",)]
+            elif name == "storage_write_slot":
+                if args != ["contract_id", "key", "value.to_vec()"] or "letmutvalue=Bytes32::zeroed();" not in body:
+                    raise TranslateError(f"{op}: storage_write_slot arguments {args}")
+                steps = [("write", ("const", 32))]
+            elif name == "storage_write_slot_from_memory":
+                if args[:2] != ["contract_id", "key"] or not re.fullmatch(r"\|memory\|\{letsrc_ptr=start_ptr\.saturating_add\(\(iasu64\)\.saturating_mul\(32\)\);Ok\(memory\.read\(src_ptr,32u64\)\?\)\}", args[2]):
+                    raise TranslateError(f"{op}: storage_write_slot_from_memory arguments {args}")
+                steps = [("write", ("const", 32))]
+            elif name == "storage_clear_slot_range":
+                if len(args) != 3 or args[0] != "contract_id" or args[2] != range_var or in_loop:
+                    raise TranslateError(f"{op}: storage_clear_slot_range arguments {args}")
+                steps = [("clear", range_arg)]
+            elif name in HELPER_MEANING:
+                params, keyp, hsteps = HELPER_MEANING[name]
+                if len(args) != len(params) or in_loop:
+                    raise TranslateError(f"{op}: {name} arguments {args}")
+                bind = dict(zip(params, args))
+                if keyp is not None:
+                    key_arg = operand(bind[keyp])
+                elif bind["key"] != "key" or key_arg is None:
+                    raise TranslateError(f"{op}: {name} key argument")
+                for st in hsteps:
+                    if st[0] == "write":
+                        l = st[1]
+                        steps.append(("write", (l[0],) + tuple(operand(bind[x]) for x in l[1:])))
+                    else:
+                        steps.append(st)
+            else:
+                raise TranslateError(f"{op}: unknown storage access {name}")
+            (inside if in_loop else after).extend(steps)
+        if key_arg is None or (not inside and not after) or (loop is None) != (not inside):
+            raise TranslateError(f"{op}: storage access shape not understood")
+        if loop is None and range_arg is not None and not any(s[0] == "clear" for s in after):
+            raise TranslateError(f"{op}: unused slot range")
+        out.append((op, key_arg, range_arg if loop is not None else None, inside, after))
+    if sorted(o[0] for o in out) != sorted(storage_ops):
+        raise TranslateError("storage opcodes found %r" % sorted(o[0] for o in out))
+    return out
+
+
+
+def surcharge(gets):
+    """the new-balance-entry surcharge of TR / CALL / MINT: `gas_charge(ENTRY_BYTES.saturating_mul(new_storage_per_byte))`"""
+    sites = (("fuel-vm/src/interpreter/contract.rs", "ifcreated_new_entry{gas_charge(self.cgas,self.ggas,((Bytes32::LEN+WORD_SIZE)asu64).saturating_mul(self.new_storage_gas_per_byte),)?;}", 1, "TR"),
+             ("fuel-vm/src/interpreter/flow.rs", "ifcreated_new_entry{gas_charge(self.registers.system_registers.cgas.as_mut(),self.registers.system_registers.ggas.as_mut(),"
+              "((Bytes32::LEN+WORD_SIZE)asu64).saturating_mul(self.new_storage_gas_per_byte),)?;}", 1, "CALL"),
+             ("fuel-vm/src/interpreter/blockchain.rs", "ifold_value.is_none(){gas_charge(self.cgas,self.ggas,(BALANCE_ENTRY_SIZEasu64).saturating_mul(self.new_storage_gas_per_byte),)?;}", 1, "MINT"))
+    getter = None
+    for path, text, n, op in sites:
+        src = re.sub(r"\s+", "", strip_comments(read(path)))
+        if src.count(text) != n:
+            raise TranslateError(f"{path}: new-balance-entry surcharge of {op} changed")
+        if src.count("self.new_storage_gas_per_byte") != n:
+            raise TranslateError(f"{path}: new_storage_gas_per_byte used elsewhere")
+        g = set(re.findall(r"letnew_storage_gas_per_byte=self\.gas_costs\(\)\.(\w+)\(\);", src))
+        if len(g) != 1 or (getter and g != {getter}):
+            raise TranslateError(f"{path}: binding of new_storage_gas_per_byte changed")
+        getter = g.pop()
+    if [x for x in gets if x[0] == getter][0][1:3] != (False, False):
+        raise TranslateError("surcharge getter is not an infallible Word getter")
+    c = re.sub(r"\s+", "", strip_comments(read("fuel-tx/src/consts.rs")))
+    if "pubconstBALANCE_ENTRY_SIZE:usize=AssetId::LEN+WORD_SIZE;" not in c:
+        raise TranslateError("fuel-tx consts.rs: BALANCE_ENTRY_SIZE definition changed")
+    t = re.sub(r"\s+", "", strip_comments(read("fuel-types/src/bytes.rs")))
+    if "pubconstWORD_SIZE:usize=core::mem::size_of::<Word>();" not in t:
+        raise TranslateError("fuel-types bytes.rs: WORD_SIZE definition changed")
+    n = re.sub(r"\s+", "", strip_comments(read("fuel-types/src/numeric_types.rs"))) if os.path.exists(os.path.join(REPO, "fuel-types/src/numeric_types.rs")) else ""
+    return getter, 32 + 8
+
+
+
 def dep_resolve():
     """check DependentCost::{base, resolve, resolve_without_base} have the transcribed shape"""
     src = strip_comments(read(GAS_RS))
@@ -130,7 +468,7 @@ def charge_sites(gets):
             field, opt, isdep = getter(m.group(1))
             if isdep or opt != bool(m.group(2)):
                 raise TranslateError(f"{op}: getter {m.group(1)} kind mismatch")
-            out.append((op, ".fixedOpt" if opt else ".fixed", field, None))
+            out.append((op, ".fixedOpt" if opt else ".fixed", m.group(1), None))
             continue
         m = re.search(r"interpreter\s*\.dependent_gas_charge\(\s*interpreter\.gas_costs\(\)\.(\w+)\(\)(\.map_err\(PanicReason::from\)\?)?,\s*(.*?),?\s*\)\?;", body, re.S)
         if m:
@@ -165,7 +503,7 @@ def charge_sites(gets):
                 if op != "ED19" or z.group(1) != expr:
                     raise TranslateError(f"{op}: unexpected zero-length substitution")
                 ed19 = int(z.group(2))
-            out.append((op, ".depOpt" if opt else ".dep", field, pos))
+            out.append((op, ".depOpt" if opt else ".dep", m.group(1), pos))
             continue
         if n_charge != 0:
             raise TranslateError(f"{op}: charge statement of unknown shape")
@@ -194,7 +532,7 @@ def charge_sites(gets):
         after = fb[g.end():]
         if not re.match(r"\s*(let new_storage_gas_per_byte = self\.gas_costs\(\)\.new_storage_per_byte\(\);)?\s*self\.gas_charge\(gas_cost\.base\(\)\)\?;", after):
             raise TranslateError(f"{fn}: `self.gas_charge(gas_cost.base())?` no longer directly follows the gas_cost binding")
-        out.append((op, ".baseThenDepOpt" if opt else ".baseThenDep", field, None))
+        out.append((op, ".baseThenDepOpt" if opt else ".baseThenDep", g.group(1), None))
     if len(out) < 100:
         raise TranslateError("opcodes_impl.rs: too few Execute impls found")
     if ed19 is None:
@@ -214,19 +552,58 @@ def consts():
     return c
 
 
+def lean_arm(a):
+    return ".undef" if a[0] == "undef" else '.%s "%s"' % (a[0], a[1])
+
+
+def lean_slen(l):
+    return {"const": ".const %d", "arg": ".arg %d", "update": ".update %d %d"}[l[0]] % tuple(l[1:])
+
+
+def lean_step(st):
+    if st[0] == "read":
+        return ".read"
+    if st[0] == "clear":
+        return ".clear %d" % st[1]
+    return ".write (%s)" % lean_slen(st[1])
+
+
 def main():
     fields = v7_fields()
+    vfields = version_fields()
+    if vfields[7] != fields:
+        raise TranslateError("GasCostsValuesV7 field list read two ways differs")
     gets = getters()
+    allgets = getters_all(vfields)
+    for name, (f7, opt7, dep7) in gets.items():
+        g = [x for x in allgets if x[0] == name][0]
+        if g[3][6] != ("field", f7) or g[1] != dep7 or g[2] != opt7:
+            raise TranslateError(f"getter {name}: V7 arm read two ways differs")
     dep_resolve()
     fixed, dep = default_table(fields)
     sites, ed19 = charge_sites(gets)
     consts()
-    L = ["/- GENERATED by tools/gen/gas.py from fuel-tx/.../gas.rs, gas/default_gas_costs.rs and fuel-vm/.../opcodes_impl.rs — do not edit -/",
+    micro = storage_micro(allgets)
+    sur_getter, entry_bytes = surcharge(allgets)
+    storage_ops = [op for op, kind, g, pos in sites if kind == ".fixed" and g == "noop" and op != "NOOP"]
+    shapes = storage_shapes(storage_ops)
+    L = ["/- GENERATED by tools/gen/gas.py from fuel-tx/.../gas.rs, gas/default_gas_costs.rs and fuel-vm/.../opcodes_impl.rs, storage.rs, flow.rs, contract.rs, blockchain.rs — do not edit -/",
          "import FuelVerif.Model.GasBase", "namespace FuelVerif.Gen", "open FuelVerif.Gas", ""]
     L.append("/-- `Word` fields of `GasCostsValuesV7`, declaration order -/")
     L.append("def gasFixedFields : List String := [%s]" % ", ".join('"%s"' % f for f, t in fields if t == "Word"))
     L.append("/-- `DependentCost` fields of `GasCostsValuesV7`, declaration order -/")
     L.append("def gasDepFields : List String := [%s]" % ", ".join('"%s"' % f for f, t in fields if t == "DependentCost"))
+    L.append("")
+    L.append("/-- fields of `GasCostsValuesV1` … `GasCostsValuesV7` (declaration order): name, is it a `DependentCost` -/")
+    L.append("def gasVersionFields : List (List (String × Bool)) := [")
+    L.append(",\n".join("  [%s]" % ", ".join('("%s", %s)' % (f, "true" if t == "DependentCost" else "false") for f, t in vfields[k]) for k in VERSIONS))
+    L.append("]")
+    L.append("")
+    L.append("/-- `impl GasCostsValues`: every getter, whether it returns a `DependentCost`, whether it returns a `Result<_, GasCostNotDefined>`,")
+    L.append("    and what its match arm returns for V1 … V7 -/")
+    L.append("def gasGetters : List (String × Bool × Bool × List GetterArm) := [")
+    L.append(",\n".join('  ("%s", %s, %s, [%s])' % (n, str(d).lower(), str(r).lower(), ", ".join(lean_arm(a) for a in arms)) for n, d, r, arms in allgets))
+    L.append("]")
     L.append("")
     L.append("/-- `default_gas_costs()` -/")
     L.append("def defaultFixed : List (String × Nat) := [")
@@ -236,7 +613,7 @@ def main():
     L.append(",\n".join('  ("%s", .%s %d %d)' % (f, "light" if dep[f][0] == "Light" else "heavy", dep[f][1], dep[f][2]) for f, t in fields if t == "DependentCost"))
     L.append("]")
     L.append("")
-    L.append("/-- charge site of every `impl Execute for fuel_asm::op::X`, by mnemonic -/")
+    L.append("/-- charge site of every `impl Execute for fuel_asm::op::X`, by mnemonic; the string is the `GasCostsValues` getter called -/")
     L.append("def opcodeCharge : List (String × ChargeKind) := [")
     rows = []
     for op, kind, field, pos in sites:
@@ -252,13 +629,34 @@ def main():
     L.append("/-- ED19: `if len == 0 { len = N }` before the dependent charge -/")
     L.append("def ed19ZeroLenUnits : Nat := %d" % ed19)
     L.append("")
+    L.append("/-- storage.rs `storage_read_slot`: getter charged (dependent, units = byte length of the value) on a slot-cache hit / miss -/")
+    L.append('def storageReadHotGetter : String := "%s"' % micro["«HOT»"])
+    L.append('def storageReadColdGetter : String := "%s"' % micro["«COLD»"])
+    L.append("/-- storage.rs `storage_write_slot`: dependent getter over the new length, then `g().saturating_mul(new_len.saturating_sub(old_len))` -/")
+    L.append('def storageWriteGetter : String := "%s"' % micro["«WRITE»"])
+    L.append('def storageNewBytesGetter : String := "%s"' % micro["«NEWBYTES»"])
+    L.append("/-- storage.rs `storage_clear_slot_range`: dependent getter over the number of slots -/")
+    L.append('def storageClearGetter : String := "%s"' % micro["«CLEAR»"])
+    L.append("")
+    L.append("/-- the storage opcodes (`execute` charges `noop()` first): operand holding the key pointer, operand holding the slot count when")
+    L.append("    the opcode loops over `key_range(key, range)`, the micro-operations per slot (inside the loop) and after it, in program order -/")
+    L.append("def storageOpTable : List (String × StorageOp) := [")
+    L.append(",\n".join('  ("%s", ⟨%d, %s, [%s], [%s]⟩)' % (op, k, "none" if r is None else "some %d" % r, ", ".join(lean_step(x) for x in ins), ", ".join(lean_step(x) for x in aft))
+                        for op, k, r, ins, aft in shapes))
+    L.append("]")
+    L.append("")
+    L.append("/-- TR / CALL / MINT: `gas_charge(ENTRY_BYTES.saturating_mul(g()))` when a contract balance entry is created -/")
+    L.append('def newEntryGetter : String := "%s"' % sur_getter)
+    L.append("def balanceEntryBytes : Nat := %d" % entry_bytes)
+    L.append("")
     L.append("end FuelVerif.Gen")
     changed = write_if_changed("Gas.lean", "\n".join(L) + "\n")
     # harness glue
     fx = [f for f, t in fields if t == "Word"]
     dp = [f for f, t in fields if t == "DependentCost"]
-    R = ["// GENERATED by tools/gen/gas.py from GasCostsValuesV7 - do not edit",
-         "use fuel_tx::{DependentCost, GasCostsValues, consensus_parameters::gas::GasCostsValuesV7};", "",
+    R = ["// GENERATED by tools/gen/gas.py from GasCostsValuesV1..V7 - do not edit",
+         "#![allow(dead_code)]",
+         "use fuel_tx::{DependentCost, GasCostsValues, consensus_parameters::gas::{%s}};" % ", ".join("GasCostsValuesV%d" % k for k in VERSIONS), "",
          "pub const FIXED: &[&str] = &[%s];" % ", ".join('"%s"' % f for f in fx),
          "pub const DEP: &[&str] = &[%s];" % ", ".join('"%s"' % f for f in dp), "",
          "pub fn fixed_values(g: &GasCostsValues) -> Option<Vec<u64>> {",
@@ -271,13 +669,38 @@ def main():
         R.append("        %s: f[%d]," % (f, i))
     for i, f in enumerate(dp):
         R.append("        %s: d[%d]," % (f, i))
-    R += ["    }.into()", "}"]
+    R += ["    }.into()", "}", ""]
+    R.append("/// version number of the schedule")
+    R.append("pub fn version(g: &GasCostsValues) -> usize { match g { %s } }" % " ".join("GasCostsValues::V%d(_) => %d," % (k, k) for k in VERSIONS))
+    R.append("/// names of the `Word` / `DependentCost` fields of `GasCostsValuesV{k}`, declaration order")
+    R.append("pub fn fixed_names(k: usize) -> &'static [&'static str] { match k { %s _ => &[] } }" % " ".join("%d => &[%s]," % (k, ", ".join('"%s"' % f for f, t in vfields[k] if t == "Word")) for k in VERSIONS))
+    R.append("pub fn dep_names(k: usize) -> &'static [&'static str] { match k { %s _ => &[] } }" % " ".join("%d => &[%s]," % (k, ", ".join('"%s"' % f for f, t in vfields[k] if t == "DependentCost")) for k in VERSIONS))
+    R.append("/// the fields of any version, in the order of `fixed_names` / `dep_names`")
+    R.append("pub fn fixed_values_any(g: &GasCostsValues) -> Vec<u64> {")
+    R.append("    match g {")
+    for k in VERSIONS:
+        R.append("        GasCostsValues::V%d(v) => vec![%s]," % (k, ", ".join("v.%s" % f for f, t in vfields[k] if t == "Word")))
+    R += ["    }", "}"]
+    R.append("pub fn dep_values_any(g: &GasCostsValues) -> Vec<DependentCost> {")
+    R.append("    match g {")
+    for k in VERSIONS:
+        R.append("        GasCostsValues::V%d(v) => vec![%s]," % (k, ", ".join("v.%s" % f for f, t in vfields[k] if t == "DependentCost")))
+    R += ["    }", "}"]
+    R.append("/// `GasCostsValuesV{k}` with the given field values (orders as above)")
+    R.append("pub fn make_version(k: usize, f: &[u64], d: &[DependentCost]) -> GasCostsValues {")
+    R.append("    match k {")
+    for k in VERSIONS:
+        wf = [f for f, t in vfields[k] if t == "Word"]
+        df = [f for f, t in vfields[k] if t == "DependentCost"]
+        R.append("        %d => GasCostsValuesV%d { %s }.into()," % (k, k, ", ".join(["%s: f[%d]" % (f, i) for i, f in enumerate(wf)] + ["%s: d[%d]" % (f, i) for i, f in enumerate(df)])))
+    R += ['        _ => panic!("no such gas costs version"),', "    }", "}"]
     p = os.path.join(VERIF, "harness", "src", "gen", "gas_gen.rs")
     text = "\n".join(R) + "\n"
     old = open(p).read() if os.path.exists(p) else None
     if old != text:
         open(p, "w").write(text)
-    print("gas: %d fixed + %d dependent fields, %d opcode charge sites%s" % (len(fx), len(dp), len(sites), " (changed)" if changed else ""))
+    print("gas: %d fixed + %d dependent fields, %d versions, %d getters, %d opcode charge sites, %d storage opcodes%s"
+          % (len(fx), len(dp), len(VERSIONS), len(allgets), len(sites), len(shapes), " (changed)" if changed else ""))
 
 
 if __name__ == "__main__":
